@@ -34,7 +34,7 @@ CHECKS = {
            "oracle: no panic outside the known classes (and only where the model predicts it), compile errors only for large bounds. Partial: stack exhaustion / "
            "memory are outside any Gallina model.",
     'C06': "Proved: a glob that builds has ordered, non-degenerate bounds and no adjacent boundaries at every node (the level-order enumeration is proved to reach "
-           "every descendant; the fuel of both breadth-first traversals of the rule checker is proved adequate for every tree). Tie: Ok/Err + rule kind vs the model "
+           "every descendant; the fuel of both breadth-first traversals of the rule checker is proved adequate for every tree); no concatenation the parser produces holds two adjacent zero-or-more wildcards; and the boundary rule over expansions is sound for every glob without repetitions, however the alternations nest (C06_built_globs_without_repetitions_have_no_adjacent_boundaries: the breadth-first branch check characterised declaratively - every reachable item is processed without error - and an induction that carries the inherited outer context through nested alternations; parsed trees have the shape the branch rules assume). Tie: Ok/Err + rule kind vs the model "
            "of the repaired checker. Oracle: Glob::new(e).is_ok() <=> an independent re-statement of the documented rules over expansions of the parse tree (two named "
            "known classes).",
     'C07': "Proved (all inputs): at the level of the documented language an alternation is the union of its branches and a repetition is its body written out a "
@@ -55,7 +55,7 @@ CHECKS = {
            "exhaustive/non-exhaustive partition vs the model of the repaired sequencer. Oracle: for every Always verdict, descendants of matched canonical paths are matched.",
     'C10': "Proved (partial, stated as such; all patterns of the class x all canonical paths): every pattern without repetitions - alternations, concatenations, leaves "
            "and tree wildcards at any nesting - reports a depth variance that contains the component count of every matched canonical path "
-           "(C10_patterns_without_repetitions_sound / C10_built_globs_without_repetitions_sound: terms are sound summaries of flat sequences, summaries compose under "
+           "(C10_patterns_without_repetitions_sound / C10_built_globs_without_repetitions_sound_unconditionally, where adjacency is discharged by the rule-checker theorem of C06: terms are sound summaries of flat sequences, summaries compose under "
            "conjunction whatever the grouping, the disjunction covers its operands; the matching expansion has no adjacent boundaries; the known class closed_variant_finalize "
            "is excluded by its predicate); every flat glob that builds, with or without tree wildcards (C10_built_flat_globs_sound, C10_flat_with_tree_wildcards_sound, "
            "C10_flat_sound: exact depth without tree wildcards, a sound lower bound with them); and with repetitions that are written out at least once and whose body has a single depth term (C10_patterns_with_simple_repetitions_sound: ranges instead of exact counts; C10_conjunction_sound, C10_product_sound for arbitrary ranges). Optional repetitions and bodies with several terms: the general statement is in the file as C10_full. Tie: depth() exact variance vs the model of the whole algebra "
